@@ -45,7 +45,8 @@ class Ctx(object):
 
 class State(object):
   __slots__ = ('env', 'heap', 'pyheap', 'pc', 'next_oid', 'tags', 'ghost', 'locks', 'depth', 'exc_stack',
-               'classof', 'clock', 'ax')
+               'classof', 'clock', 'ax', 'epoch')
+  private_keys = frozenset()     # (class, field) slots opaque user code never writes (set from the registry)
 
   def __init__(self):
     self.env = {}
@@ -60,6 +61,7 @@ class State(object):
     self.exc_stack = ()    # currently handled exceptions (for bare raise / sys.exc_info)
     self.classof = z3.Function('classof', z3.IntSort(), z3.IntSort())
     self.clock = 0
+    self.epoch = (0, 0)  # (# of '*' havocs, # of '*user' havocs) on this path: arrays first touched afterwards are not pre-state
     self.ax = set()      # ids of pc entries that are axioms (facts about fresh / uninterpreted symbols, shapes)
 
   def fork(self):
@@ -77,6 +79,7 @@ class State(object):
     s.classof = self.classof
     s.clock = self.clock
     s.ax = set(self.ax)
+    s.epoch = self.epoch
     return s
 
   def assume(self, cond):
@@ -108,7 +111,13 @@ class State(object):
     if a is None:
       if key == ('dict', 'keys'):
         is_ref = True
-      a = z3.Const('H0_%s_%s' % key, z3.ArraySort(z3.IntSort(), sort))
+      # an array first touched after a havoc of the whole heap is *not* the pre-state array (which `old` would name H0)
+      prefix = 'H0'
+      if self.epoch[0] > 0:
+        prefix = 'HL%d' % self.epoch[0]
+      elif self.epoch[1] > 0 and key not in self.private_keys and key[0] not in ('list', 'dict'):
+        prefix = 'HU%d' % self.epoch[1]
+      a = z3.Const('%s_%s_%s' % ((prefix,) + tuple(key)), z3.ArraySort(z3.IntSort(), sort))
       self.heap[key] = a
       r = z3.Int('h0r')
       if is_ref and sort == z3.IntSort():
